@@ -125,6 +125,7 @@ type interp struct {
 	rec      *recorder
 	detail   bool
 	kept     []object.PanObject // values handed to keep(x): live values of a C06 history that no variable names
+	views    [][2]string        // name, fingerprint of the views handed to the current fp(...) call
 	topEnv   *object.Env        // frame of the first fp() call (the top level of the history)
 }
 
@@ -177,7 +178,13 @@ func (it *interp) injectProbes() {
 			parts = append(parts, x.k+"="+x.v)
 		}
 		for i, v := range it.kept {
-			parts = append(parts, "#k"+strconv.Itoa(i+1)+"="+fingerprint(v, 0))
+			if v != nil {
+				parts = append(parts, "#k"+strconv.Itoa(i+1)+"="+fingerprint(v, 0))
+			}
+		}
+		sort.Slice(it.views, func(i, j int) bool { return it.views[i][0] < it.views[j][0] })
+		for _, v := range it.views {
+			parts = append(parts, "#v"+v[0]+"="+v[1])
 		}
 		it.rec.add("fp:" + strings.Join(parts, "\x1f"))
 	}
@@ -185,7 +192,17 @@ func (it *interp) injectProbes() {
 		if it.topEnv == nil {
 			it.topEnv = env
 		}
-		snapshot(it.topEnv)
+		// fp({name: view, ...}): views of live values computed by the program itself (through the interpreter's own
+		// accessors) are live values of the snapshot too
+		if len(args) > 0 {
+			if o, ok := args[0].(*object.PanObj); ok && o.Pairs != nil {
+				it.views = nil
+				for _, p := range *o.Pairs {
+					it.views = append(it.views, [2]string{keyText(p.Key), fingerprint(p.Value, 0)})
+				}
+			}
+		}
+		snapshot(it.topEnv) // the views stay: a keep(x) snapshot repeats the ones computed last
 		return object.BuiltInNil
 	}
 	// keep(x): x becomes a live value of the history at this very moment (in the middle of an evaluation),
@@ -576,7 +593,7 @@ func doProg(rq *Req) *Resp {
 			it.setIO(rq.Stdin)
 		}
 		env := object.NewEnclosedEnv(it.constEnv)
-		it.kept, it.topEnv = nil, env
+		it.kept, it.views, it.topEnv = nil, nil, env
 		end := evalNode(it, prog, env, rq.Fuel, rq.Depth)
 		ev := it.rec.take()
 		if i == 0 {
